@@ -66,7 +66,10 @@ def workloads(ctx: core.Ctx) -> list[dict]:
         # the first process dies without closing (WAL left behind), the second one recovers and goes on
         {"name": "resume", "keys": keys, "double": True, "sessions": [
             {"ops": [["cred", "a", None, 0], ["blob", "x", 2000]], "end": "abandon"},
-            {"ops": [["cred", "b", "a", 1], ["blob", "z", 9000], ["content", "d", 9000]], "end": "close"}]},
+            {"ops": [["cred", "b", "a", 1], ["blob", "z", 9000], ["content", "d", 9000],
+                     # valid chain tokens whose metadata is rejected: the token alone is stored (and acknowledged)
+                     ["badcred", "e", "b", "badsig"], ["blob", "z2", 300], ["badcred", "f", "e", "wrongptr"],
+                     ["blob", "z3", 300]], "end": "close"}]},
         # a version-1 wallet file (fabricated, "setup" sessions are not crash-enumerated) is upgraded on open
         {"name": "upgrade", "keys": keys, "double": True, "sessions": [
             {"ops": [["legacy", ["old1", "old2"], 3000]], "end": "abandon", "setup": True},
@@ -90,6 +93,13 @@ def workloads(ctx: core.Ctx) -> list[dict]:
                                                  ["with", "identity", "ok", [["cred", "g", "f", 1]]],
                                                  ["cred", "h", "g", None]]],
                      ["with", "wallet", "ok", [["blob", "w6", 300], ["with", "wallet", "ok", [["blob", "w7", 300]]]]]],
+             "end": "abandon"}]},
+        # a pseudonym with more tokens than TokenTree.unchained holds (100): 135 credentials in chain order are
+        # set-up (a "setup" session is run, not crash-enumerated); three more are added under full enumeration, and
+        # every reopen (including the recovering session's own) rebuilds the 135+ token tree
+        {"name": "long-chain", "keys": keys, "skip_py_reads": True, "sessions": [
+            {"ops": [["chain", 135]], "end": "close", "setup": True},
+            {"ops": [["cred", "x1", "c134", None], ["cred", "x2", "x1", 0], ["cred", "x3", "x2", None]],
              "end": "abandon"}]},
     ]
     if ctx.thorough:
@@ -486,6 +496,8 @@ def plan_items(ctx: core.Ctx, wi: int, session: int, p: dict) -> list:
         items.append((wi, session, [{"kind": "sys", "n": t["n"], "mode": "after", "torn": 0,
                                      "site": f"{t['call']} {t['file']}"}]))
     for n, what in enumerate(p["py_trace"], 1):
+        if w.get("skip_py_reads") and what.startswith("execute:SELECT"):
+            continue        # the 135 reads of the reload; the disk cannot differ from the neighbouring points
         for mode in ("before", "after"):
             items.append((wi, session, [{"kind": "py", "n": n, "mode": mode, "torn": 0, "site": what}]))
     if ctx.thorough and w.get("double"):
@@ -598,6 +610,9 @@ def _run(ctx: core.Ctx) -> core.Report:
                 "of acknowledged inserts, whether the in-progress record is visible after reopening) tuples",
         "samples": samples,
         "exhaustive": True,
+        "exclusions": "workload long-chain: Python-level points at SELECT statements (the per-credential reads of the "
+                      "reload) are not executed, every other Python-level point and every system-call point is; "
+                      "sessions marked setup are run but not crash-enumerated",
         "workloads": [{"name": w["name"], "sessions": w["sessions"]} for w in ws],
         "per_session": per_workload,
         "executions_by_kind": dict(sorted(by_kind.items())),
